@@ -378,6 +378,11 @@ def _visit(hist, rec, seen):
                 if Bd.state_key(est) != before:
                     _v(rec, "a", dict(sig, what="refused-call-changed-state"), "a refused %s call changed the object" % op[0], case)
                 return None
+            if op[0] == "fit" and M["A"] is not None and np.any(np.asarray(M["lb"]) > np.asarray(M["ub"])):
+                # fitting inside an empty box (upper bound registered below the lower bound) has no answer: raising is acceptable,
+                # the history is not explored further
+                rec.outcome("empty-box-state/fit-%s" % ("raised" if exc is not None else "returned"))
+                return None
             if exc is not None:
                 _v(rec, "a", dict(sig, **exc_sig(exc)), "%s raised %r after history %s" % (op[0], exc, hname[:-1]), case, script=_script(hist))
                 rec.outcome("exception")
